@@ -26,7 +26,7 @@ func checkDefs() map[string]CheckDef {
 			{Pkg: "internal/verifh/c15", Harness: "VerifC15SubAllocs", Quick: map[string]int{"K": 1}, TV: 20},
 			{Pkg: "internal/verifh/c15", Harness: "VerifC15AllocationPair", Quick: map[string]int{"K": 1, "exact": 1}, Thor: map[string]int{"exact": 0}, TV: 20},
 			{Pkg: "internal/verifh/c15", Harness: "VerifC15StateVariant", Quick: map[string]int{"K": 1, "exact": 1}, Thor: map[string]int{"exact": 0}, TV: 20},
-			{Pkg: "internal/verifh/c15", Harness: "VerifC15StateVariant", Quick: map[string]int{"K": 2, "exact": 1, "maxA": 2}, OnlyT: true},
+			{Pkg: "internal/verifh/c15", Harness: "VerifC15StateVariant", Quick: map[string]int{"K": 2, "exact": 1, "maxA": 1}, OnlyT: true},
 			{Pkg: "internal/verifh/c15", Harness: "VerifC15Sig", Quick: map[string]int{"K": 1, "exact": 1}, Thor: map[string]int{"exact": 0}, TV: 10},
 			{Pkg: "internal/verifh/c15", Harness: "VerifC15Asset", TV: 20},
 		},
@@ -37,9 +37,9 @@ func checkDefs() map[string]CheckDef {
 	add(CheckDef{
 		ID: "C17",
 		Obligations: []Obligation{
-			{Pkg: "internal/verifh/c17", Harness: "VerifC17Injective", Quick: map[string]int{"K": 1, "exact": 1, "extraParts": 1}, Thor: map[string]int{"exact": 0, "extraParts": 2}, TV: 10},
+			{Pkg: "internal/verifh/c17", Harness: "VerifC17Injective", Quick: map[string]int{"K": 1, "exact": 1, "extraParts": 1}, Thor: map[string]int{"extraParts": 2}, TV: 10},
 			{Pkg: "internal/verifh/c17", Harness: "VerifC17Injective", Quick: map[string]int{"K": 2, "exact": 1, "extraParts": 2}, OnlyT: true},
-			{Pkg: "internal/verifh/c17", Harness: "VerifC17Independent", Quick: map[string]int{"K": 1, "exact": 1}, Thor: map[string]int{"K": 2}, TV: 10},
+			{Pkg: "internal/verifh/c17", Harness: "VerifC17Independent", Quick: map[string]int{"K": 1, "exact": 1}, TV: 10},
 			{Pkg: "internal/verifh/c17", Harness: "VerifC17CloneRoundTrip", Quick: map[string]int{"K": 1, "exact": 1}, Thor: map[string]int{"exact": 0}, TV: 10},
 			{Pkg: "internal/verifh/c17", Harness: "VerifC17Validate", TV: 10},
 			{Pkg: "internal/verifh/c17", Harness: "VerifC17DecodeValidates", TV: 10, Note: "Params.Decode refuses well-formed encodings of invalid parameters (zero duration, address-less participant, one participant, 33-byte nonce) without panicking"},
@@ -94,10 +94,10 @@ func checkDefs() map[string]CheckDef {
 		Obligations: []Obligation{
 			{Pkg: "internal/verifh/c14", Harness: "VerifC14BigInt", Quick: map[string]int{"maxLen": 129}, TV: 30},
 			{Pkg: "internal/verifh/c14", Harness: "VerifC14BigIntPair", Quick: map[string]int{"K": 2}, Thor: map[string]int{"K": 3}, TV: 20},
-			{Pkg: "internal/verifh/c14", Harness: "VerifC14Values", Quick: map[string]int{"K": 1, "exact": 1, "maxS": 1, "maxA": 1}, Thor: map[string]int{"exact": 0, "maxS": 2, "maxA": 2}, TV: 30},
-			{Pkg: "internal/verifh/c14", Harness: "VerifC14Messages", Quick: map[string]int{"K": 1, "exact": 1, "maxS": 1}, Thor: map[string]int{"deep": 1, "maxS": 2}, TV: 40},
+			{Pkg: "internal/verifh/c14", Harness: "VerifC14Values", Quick: map[string]int{"K": 1, "exact": 1, "maxS": 1, "maxA": 1}, Thor: map[string]int{"exact": 0, "maxS": 2, "maxA": 1, "wireKeys": 2}, TV: 30},
+			{Pkg: "internal/verifh/c14", Harness: "VerifC14Messages", Quick: map[string]int{"K": 1, "exact": 1, "maxS": 1}, Thor: map[string]int{"maxS": 2, "wireKeys": 2}, TV: 40},
 			{Pkg: "internal/verifh/c14", Harness: "VerifC14Envelopes", Quick: map[string]int{"K": 1, "exact": 1, "envKinds": 3}, Thor: map[string]int{"envKinds": 4}, TV: 15},
-			{Pkg: "internal/verifh/c14", Harness: "VerifC14Protobuf", Quick: map[string]int{"K": 1, "exact": 1, "maxS": 1}, Thor: map[string]int{"deep": 1, "maxS": 2}, TV: 40},
+			{Pkg: "internal/verifh/c14", Harness: "VerifC14Protobuf", Quick: map[string]int{"K": 1, "exact": 1, "maxS": 1}, Thor: map[string]int{"maxS": 2, "wireKeys": 2}, TV: 40},
 		},
 		Assumptions: append(append([]string{}, commonAssumptions...), pbAssume,
 			"reason strings are ASCII (protobuf refuses text fields that are not valid UTF-8; found by translator validation against the real protobuf library)",
@@ -109,10 +109,10 @@ func checkDefs() map[string]CheckDef {
 	add(CheckDef{
 		ID: "C13",
 		Obligations: []Obligation{
-			{Pkg: "internal/verifh/c13", Harness: "VerifC13Buffer", Quick: map[string]int{"L": 6, "symLenK": 9}, Thor: map[string]int{"L": 10, "symLenK": 11}, TV: 15},
+			{Pkg: "internal/verifh/c13", Harness: "VerifC13Buffer", Quick: map[string]int{"L": 6, "symLenK": 9}, Thor: map[string]int{"L": 8, "symLenK": 11}, TV: 15},
 			{Pkg: "internal/verifh/c13", Harness: "VerifC13Window", Quick: map[string]int{"W": 4, "stride": 4, "symLenK": 9}, Thor: map[string]int{"allTemplates": 1}, TV: 15},
 			{Pkg: "internal/verifh/c13", Harness: "VerifC13PB", Quick: map[string]int{"maxSites": 70}, TV: 60},
-			{Pkg: "internal/verifh/c13", Harness: "VerifC13Zeros", Quick: map[string]int{"maxLen": 14}, Thor: map[string]int{"maxLen": 24}, TV: 15, Note: "every decoder on buffers of length 0..maxLen that are zero except 3 arbitrary bytes at an arbitrary offset"},
+			{Pkg: "internal/verifh/c13", Harness: "VerifC13Zeros", Quick: map[string]int{"maxLen": 14}, Thor: map[string]int{"maxLen": 20}, TV: 15, Note: "every decoder on buffers of length 0..maxLen that are zero except 3 arbitrary bytes at an arbitrary offset"},
 			{Pkg: "internal/verifh/c13", Harness: "VerifC13BigIntLong", TV: 10, Note: "big integer decoder with declared lengths 0,1,127..130,200,255 and the payload present: lengths above the limit are refused whatever the value"},
 			{Pkg: "internal/verifh/c13", Harness: "VerifC13SparseSigs", Quick: map[string]int{"maxSlots": 9}, TV: 15, Note: "sparse signature decoder with the full payload present (0..9 slots, arbitrary mask incl. padding bits)"},
 		},
@@ -120,7 +120,7 @@ func checkDefs() map[string]CheckDef {
 			"allocation bound: a decoder may pass at most 65536 to make before it has read the elements (the largest count a 16-bit length field can declare); natively the bound is confirmed through the bytes allocated by the decoder",
 			"window model: templates are concrete valid encodings (1 asset, 2 participants, 1 sub-allocation with index map, MockApp registered); the window content and an optional truncation point are arbitrary",
 			"protobuf model: well-formed generated structs with exactly one deviation (a nil sub-message, a repeated field with one element more or less, a byte field that is absent, one byte long or one byte too long, an arbitrary backend key, an arbitrary app definition); leaves are concrete except at the deviation"),
-		BoundsText: "buffer model: each of 20 decoder entry points (perunio BigInt/string/scalars, Balances, SubAlloc, Allocation, State, Params, Transaction, wallet and wire address maps and arrays, Sig, SparseSigs for 0..3 slots, OptApp, OptAppAndData, wire.DecodeMsg, perunio envelope serializer) on a fully symbolic buffer of every length 0..L (L=6 quick, 10 thorough); declared counts are read back from the buffer and compared with the documented limits on success; window model: W=4 arbitrary bytes at every 4-aligned offset of a valid encoding, optionally truncated inside or right after the window (quick: State, Params, Envelope, AuthResponse, LedgerChannelProposalAcc, ChannelUpdateAcc; thorough: all 18 templates incl. all composite messages); protobuf: 8 message kinds x up to 70 deviation sites through the real serializer.Decode",
+		BoundsText: "buffer model: each of 20 decoder entry points (perunio BigInt/string/scalars, Balances, SubAlloc, Allocation, State, Params, Transaction, wallet and wire address maps and arrays, Sig, SparseSigs for 0..3 slots, OptApp, OptAppAndData, wire.DecodeMsg, perunio envelope serializer) on a fully symbolic buffer of every length 0..L (L=6 quick, 8 thorough); declared counts are read back from the buffer and compared with the documented limits on success; window model: W=4 arbitrary bytes at every 4-aligned offset of a valid encoding, optionally truncated inside or right after the window (quick: State, Params, Envelope, AuthResponse, LedgerChannelProposalAcc, ChannelUpdateAcc; thorough: all 18 templates incl. all composite messages); protobuf: 8 message kinds x up to 70 deviation sites through the real serializer.Decode",
 		Outside:    []string{"proto.Unmarshal itself", "two simultaneous deviations in one protobuf message", "windows wider than 4 bytes", "memory exhaustion below the allocation bound"},
 	})
 	add(CheckDef{
@@ -228,13 +228,13 @@ func checkDefs() map[string]CheckDef {
 			{Pkg: "internal/verifh/c08", Harness: "VerifC08Agreement", Quick: map[string]int{"c08full": 0}, Thor: map[string]int{"c08full": 1}, TV: 6},
 			{Pkg: "internal/verifh/c08", Harness: "VerifC08ProposalDuringUpdate", TV: 6, Note: "sub-channel / virtual channel proposal arriving while an update of the parent is in flight: judged against the parent state after the update"},
 			{Pkg: "internal/verifh/c08", Harness: "VerifC08Opening", TV: 6, Note: "the whole two-party opening protocol between two real clients, deterministic schedule"},
-			{Pkg: "internal/verifh/c08", Harness: "VerifC08Opening", Sched: true, Quick: map[string]int{"P": 0, "D": 1, "race": 1}, Thor: map[string]int{"D": 2}, Note: "delay-bounded schedule exploration (every Publish is a schedule point), happens-before race detection"},
+			{Pkg: "internal/verifh/c08", Harness: "VerifC08Opening", Sched: true, Quick: map[string]int{"P": 0, "D": 1, "race": 1}, Note: "delay-bounded schedule exploration (every Publish is a schedule point), happens-before race detection"},
 		},
 		Assumptions: append(append([]string{}, clientAssume...),
 			"reference validity predicate: DESIGN.md Appendix A.4",
 			"SHA3-256 (nonce derivation) and SHA-256 (channel ID) are ideal: equal digests iff equal input streams",
 			"quick tier: nonce digests without a leading zero byte in the two ID-dependence experiments (the thorough tier explores every digest length 0..32)"),
-		BoundsText: "validation: a client with or without an open ledger channel to the sender (symbolic balances, optionally locked funds); ledger, sub-channel and virtual channel proposals built well-formed with symbolic leaves and exactly one of 24 deviations (participants, challenge duration, allocation shape/validity/locked, funding agreement, peers vs sender/receiver, parent id, assets, funds vs parent, parents list and index maps of every wrong length, entries out of range); the proposal handler must be invoked only for proposals the reference accepts, never panic, and leave the parent's mutex free; agreement: completeCPP's parameter derivation on both sides' clients for ledger and virtual proposals with symbolic nonce shares, proposal IDs and challenge durations; the ID changes iff the proposer's / the responder's share changes; accept messages of the wrong type or proposal ID are refused; opening: two real clients on an in-harness bus run ProposeChannel / Accept (or Reject) for a ledger channel with symbolic balances, nonce shares and challenge duration: both obtain channels with the same ID, parameters, participant order and the proposed version-0 state fully signed, in phase Acting; explored under the deterministic schedule and under every schedule with up to D deviations (D=1 quick, 2 thorough) from the Go-like default (runnext) at blocking points and at every Publish",
+		BoundsText: "validation: a client with or without an open ledger channel to the sender (symbolic balances, optionally locked funds); ledger, sub-channel and virtual channel proposals built well-formed with symbolic leaves and exactly one of 24 deviations (participants, challenge duration, allocation shape/validity/locked, funding agreement, peers vs sender/receiver, parent id, assets, funds vs parent, parents list and index maps of every wrong length, entries out of range); the proposal handler must be invoked only for proposals the reference accepts, never panic, and leave the parent's mutex free; agreement: completeCPP's parameter derivation on both sides' clients for ledger and virtual proposals with symbolic nonce shares, proposal IDs and challenge durations; the ID changes iff the proposer's / the responder's share changes; accept messages of the wrong type or proposal ID are refused; opening: two real clients on an in-harness bus run ProposeChannel / Accept (or Reject) for a ledger channel with symbolic balances, nonce shares and challenge duration: both obtain channels with the same ID, parameters, participant order and the proposed version-0 state fully signed, in phase Acting; explored under the deterministic schedule and under every schedule with up to D=1 deviation from the Go-like default (runnext) at blocking points and at every Publish",
 		Outside:    []string{"schedules beyond the delay bound", "message loss on the bus", "sub-channel and virtual channel openings between live clients (their validation and derivation steps are covered)", "more than two participants", "apps other than NoApp in proposals"},
 	})
 	add(CheckDef{
